@@ -210,6 +210,10 @@ def observe(cfg, want):
                 terms.append(P.convectionTVDupwindRHSTerm(c.u, v, FL))
             P.solvePDE(v, terms)
             steady[name] = lift.lift_array(np.asarray(v.value), tol=1e-9, qmax=40)[0]
+            far_ = obs.setdefault("_far", {})
+            dev_ = np.abs(np.asarray(v.value, dtype=float) - cval)
+            far_["steady"] = bool(far_.get("steady", False) or not np.all(np.isfinite(dev_))
+                                  or np.any(dev_ > 1e-6 * max(1.0, abs(cval))))
         obs["steady"] = steady
         # C01: closed system (no-flux walls with zero normal velocity / periodic): domainIntegral is invariant
         if cfg.get("closed_system"):
@@ -235,6 +239,10 @@ def observe(cfg, want):
                         P.solvePDE(v, [P.transientTerm(v, 0.5, 1.0), -P.diffusionTerm(c.D), conv])
                     seq.append(v.domainIntegral())
                 integ[name] = [lift.lift_enc(x / math.pi ** e, tol=1e-11, qmax=400) for x in seq]
+                # an unliftable later integral decides the clause only if it is FAR from the initial one
+                far = obs.setdefault("_far", {})
+                far["integrals"] = bool(far.get("integrals", False) or any(
+                    not math.isfinite(x) or abs(x - seq[0]) > 1e-7 * max(1.0, abs(seq[0])) for x in seq))
                 if integ[name][0][1] == 0:
                     integ[name] = []      # the initial integral itself is not a small rational: nothing to compare with
             obs["integrals"] = integ
